@@ -266,6 +266,7 @@ def run(ctx) -> None:
             res.notes.append(f"identity probe on test/data failed: {str(e)[-300:]}")
         res.bump("probe_files_test_data", len(td_names))
     reqs, metas = [], []
+    known_edges = {(k, f) for k, f, _lo, _hi in corpus.get("refurb_edges", [])} | {tuple(e) for e in extract_c04.alias_fields()}
     for label, data in (("corpus", corpus), ("generated", gen_probe), ("test-data", td_probe)):
         if "error" in data:
             res.violate(f"refurb could not lint the probe files ({label}): {data['error'][:3]}", {"kind": "probe-error", "where": label}, {"errors": data["error"]})
@@ -321,6 +322,13 @@ def run(ctx) -> None:
                 res.violate(f"a {v0[1]} node outside the reference tree (line {v0[2]}) was handed to a check {len(twice_outside)} x twice", {"kind": "identity-outside", "node": v0[1]}, {"file": fname, "visit": v0, "source": _source(label, fname)})
             for e in set(dup_edges):
                 res.disagreements.append({"where": "reference-tree", "reason": f"a child of {e[0]}.{e[1]} is also reachable through another path: the alias-field list (Model/Tree.lean) no longer makes the syntax a tree", "file": fname})
+            unknown = tree_edges(tree) - known_edges
+            if unknown:
+                # a (class, field) edge the extraction corpus never showed: the generated table (and so the model) says nothing
+                # about it; the identity check above has judged the file, the model walk is skipped (a corpus gap, not an alarm)
+                res.bump("model_walk_skipped_unknown_edge")
+                res.notes.append(f"{fname}: edges absent from the generated table (add the shape to corpus/C04): {sorted(unknown)[:4]}")
+                continue
             if tree_depth(tree) > 150:
                 # a long operator chain: JSON encoders/decoders (Python's C one, Lean's) have fixed depth limits; the identity
                 # check above is done, only the model walk is skipped for this file
@@ -344,6 +352,17 @@ def run(ctx) -> None:
         "node classes that mypy never builds from source (PlaceholderNode, PromoteExpr, TypeAlias, TempNode outside class bodies) are not exercised",
     ]
     res.trusted_extra.append("harness/treeprobe.py (identity-based recording of what RefurbVisitor hands to checks; reflection over mypy's compiled node classes via dir())")
+
+
+def tree_edges(tree: dict[str, Any]) -> set[tuple[str, str]]:
+    out, todo = set(), [tree]
+    while todo:
+        t = todo.pop()
+        for f, c in t.get("kids", []):
+            out.add((t["kind"], f))
+            if "dup" not in c:
+                todo.append(c)
+    return out
 
 
 def tree_depth(tree: dict[str, Any]) -> int:
